@@ -126,7 +126,8 @@ func (c *Ctx) resetPass() {
 	c.panicCount = map[string]int{}
 	c.preCount = map[string]int{}
 	c.grew = false
-	c.constGlobals = nil
+	// constGlobals persists across passes: a constant global must be known as such before the first havoc of the
+	// final pass, even if the code reads it only later
 	c.globalFactsDone = nil
 	c.assumedTexts = nil
 	c.storeInfos = nil
